@@ -29,14 +29,20 @@ var fieldTypes = map[string]string{"n": "num", "m": "num", "s": "str", "t": "str
 
 var boolUnaries = []qast.UForm{{Op: qast.ONot}, {Op: qast.OMust}, {Op: qast.OMustN}}
 
+// numReps: numeric spellings that a renderer or literal parser may treat specially (sign, leading
+// zeros, 2^53 +- 1 where float64 stops being exact, the int64 extremes; short, long and tiny
+// decimals). Every one of them is used in every numeric value slot.
+var intReps = []string{"5", "-5", "0", "010", "-007", "9007199254740993", "-9007199254740993", "9223372036854775807", "-9223372036854775808"}
+var floatReps = []string{"0.5", "1.25", "0.001", "-2.75", "0.0078125", "0.0000001", "12345678.5", "123456.789012345"}
+
 func leavesC03() []*qast.Node {
 	L := qast.Lf
 	var ls []*qast.Node
 	eq := func(f string, v qast.Value) { ls = append(ls, L(qast.Leaf{Kind: qast.LEq, Field: f, Val: v})) }
-	for _, v := range []string{"5", "-5", "0", "9223372036854775807", "-9223372036854775808", "010", "-007"} {
+	for _, v := range intReps {
 		eq("n", qast.I(v))
 	}
-	for _, v := range []string{"0.5", "1.25", "0.001", "-2.75", "0.0078125", "0.0000001", "12345678.5", "123456.789012345"} {
+	for _, v := range floatReps {
 		eq("n", qast.F(v))
 	}
 	eq("s", qast.W("word"))
@@ -46,7 +52,9 @@ func leavesC03() []*qast.Node {
 	eq("s", qast.Q("x_y"))
 	eq("s", qast.Q(""))
 	for _, k := range []string{qast.LGt, qast.LGe, qast.LLt, qast.LLe} {
-		ls = append(ls, L(qast.Leaf{Kind: k, Field: "n", Val: qast.I("5")}))
+		for _, v := range intReps {
+			ls = append(ls, L(qast.Leaf{Kind: k, Field: "n", Val: qast.I(v)}))
+		}
 		ls = append(ls, L(qast.Leaf{Kind: k, Field: "n", Val: qast.F("1.25")}))
 		ls = append(ls, L(qast.Leaf{Kind: k, Field: "n", Val: qast.F("0.0078125")}))
 		ls = append(ls, L(qast.Leaf{Kind: k, Field: "s", Val: qast.W("m")}))
@@ -64,6 +72,13 @@ func leavesC03() []*qast.Node {
 	rng("n", qast.F("2.5"), qast.F("0.5")) // reversed: selects nothing
 	rng("n", qast.Star, qast.I("5"))
 	rng("n", qast.I("1"), qast.Star)
+	// every integer representative as lower and as upper bound, closed and open-ended
+	for _, v := range intReps[3:] {
+		rng("n", qast.I(v), qast.Star)
+		rng("n", qast.Star, qast.I(v))
+		rng("n", qast.I(v), qast.I("9223372036854775807"))
+		rng("n", qast.I("-9223372036854775808"), qast.I(v))
+	}
 	rng("n", qast.F("0.5"), qast.F("1.25"))
 	rng("n", qast.F("0.001"), qast.F("0.002"))
 	rng("n", qast.Star, qast.F("1.25"))
@@ -79,6 +94,7 @@ func leavesC03() []*qast.Node {
 	ls = append(ls, L(qast.Leaf{Kind: qast.LList, Field: "n", List: []qast.Value{qast.F("0.5"), qast.F("1.25")}}))
 	ls = append(ls, L(qast.Leaf{Kind: qast.LList, Field: "n", List: []qast.Value{qast.F("0.0078125"), qast.I("7")}}))
 	ls = append(ls, L(qast.Leaf{Kind: qast.LList, Field: "n", List: []qast.Value{qast.I("1"), qast.I("2"), qast.I("3"), qast.I("4"), qast.I("5")}}))
+	ls = append(ls, L(qast.Leaf{Kind: qast.LList, Field: "n", List: []qast.Value{qast.I("010"), qast.I("9007199254740993"), qast.I("-9223372036854775808"), qast.I("9223372036854775807")}}))
 	ls = append(ls, L(qast.Leaf{Kind: qast.LList, Field: "s", List: []qast.Value{qast.W("p"), qast.W("q"), qast.W("r"), qast.Q("s t")}}))
 	ls = append(ls, L(qast.Leaf{Kind: qast.LList, Field: "s", List: []qast.Value{qast.W("x"), qast.W("y")}}))
 	ls = append(ls, L(qast.Leaf{Kind: qast.LList, Field: "s", List: []qast.Value{qast.Q("a b"), qast.Q("it's"), qast.W("z")}}))
